@@ -9,6 +9,9 @@ package memorylimiterprocessor
 // CheckMemLimits with the package's public memory-reading seam.
 
 import (
+	"strings"
+	"reflect"
+	"unsafe"
 	"context"
 	"encoding/json"
 	"errors"
@@ -17,7 +20,6 @@ import (
 	"testing"
 	"time"
 
-	"go.opentelemetry.io/collector/component"
 	"go.opentelemetry.io/collector/consumer"
 	"go.opentelemetry.io/collector/consumer/consumererror"
 	"go.opentelemetry.io/collector/consumer/xconsumer"
@@ -36,6 +38,7 @@ type c18pCase struct {
 	Signal     string `json:"signal"`
 	History    []bool `json:"refusing_history"` // limiter state sequence; the call is made in the last state
 	Downstream string `json:"downstream"`       // ok | error | permanent
+	Reloaded   bool   `json:"after_a_reload_with_other_limits,omitempty"`
 }
 
 func c18pRun(c c18pCase) (string, string) {
@@ -44,8 +47,22 @@ func c18pRun(c c18pCase) (string, string) {
 	memorylimiter.ReadMemStatsFn = func(m *runtime.MemStats) { m.Alloc = reading }
 	defer func() { memorylimiter.ReadMemStatsFn = runtime.ReadMemStats }()
 	cfg := &Config{CheckInterval: time.Hour, MemoryLimitMiB: 100, MemorySpikeLimitMiB: 20, MinGCIntervalWhenSoftLimited: time.Hour, MinGCIntervalWhenHardLimited: time.Hour}
-	f := &factory{memoryLimiters: map[component.Config]*memoryLimiterProcessor{}}
+	// the factory as NewFactory builds it (its cache map allocated whatever its key type is)
+	f := &factory{}
+	mf := reflect.ValueOf(f).Elem().FieldByName("memoryLimiters")
+	reflect.NewAt(mf.Type(), unsafe.Pointer(mf.UnsafeAddr())).Elem().Set(reflect.MakeMap(mf.Type()))
 	set := processortest.NewNopSettings(metadata.Type)
+	if c.Reloaded {
+		// the factory outlives a configuration reload: the same component id was created, started and shut down before with
+		// OTHER limits (200/20 MiB); what is created now follows the configuration it is created with
+		old := &Config{CheckInterval: time.Hour, MemoryLimitMiB: 200, MemorySpikeLimitMiB: 20, MinGCIntervalWhenSoftLimited: time.Hour, MinGCIntervalWhenHardLimited: time.Hour}
+		nl, _ := consumer.NewLogs(func(context.Context, plog.Logs) error { return nil })
+		if op, err := f.createLogs(context.Background(), set, old, nl); err == nil {
+			if err := op.Start(context.Background(), nil); err == nil {
+				_ = op.Shutdown(context.Background())
+			}
+		}
+	}
 	var downErr error
 	switch c.Downstream {
 	case "error":
@@ -198,8 +215,8 @@ func TestVerifProc(t *testing.T) {
 	hists := [][]bool{{false}, {true}, {true, false}, {false, true}, {true, true}, {true, false, true}, {false, true, false}}
 	for _, sig := range []string{"logs", "traces", "metrics", "profiles"} {
 		for _, h := range hists {
-			for _, d := range []string{"ok", "error", "permanent"} {
-				c := c18pCase{sig, h, d}
+			for _, d := range []string{"ok", "error", "permanent", "ok+reloaded"} {
+				c := c18pCase{Signal: sig, History: h, Downstream: strings.TrimSuffix(d, "+reloaded"), Reloaded: strings.HasSuffix(d, "+reloaded")}
 				ctx.R.Evals++
 				ctx.R.Trans += int64(len(h) + 1)
 				ctx.Nontrivial(vr.Hash(fmt.Sprint(c)))
